@@ -114,7 +114,7 @@ def run_tlc(module, cfg, files=None, workers=None, timeout=1800, simulate=None, 
         with open(os.path.join(d, name), mode) as fp:
             fp.write(text)
     w = workers or NCPU
-    opts = "-Xss512m -Dtlc2.tool.queue.IStateQueue=StateDeque"
+    opts = "-Xss512m -Dtlc2.tool.queue.IStateQueue=StateDeque -Djava.io.tmpdir=" + d     # TLC leaves an empty tlc-<n> directory in java.io.tmpdir: keep it inside the scratch copy
     if heap:
         opts += " -Xmx" + heap
     env = dict(os.environ, JAVA_TOOL_OPTIONS=opts)
